@@ -36,7 +36,7 @@ def _child(conn, modname, fname, args):
         conn.close()
 
 
-def fresh_call(modname: str, fname: str, *args, timeout=120):
+def fresh_call(modname: str, fname: str, *args, timeout=900):
     """run ``modname.fname(*args)`` in a fresh process; returns its (picklable) result"""
     ctx = _ctx()
     parent, child = ctx.Pipe(duplex=False)
@@ -46,7 +46,7 @@ def fresh_call(modname: str, fname: str, *args, timeout=120):
     try:
         if not parent.poll(timeout):
             p.kill()
-            raise RuntimeError("fresh process timed out")
+            raise TimeoutError("fresh process timed out")
         kind, payload = parent.recv()
     finally:
         p.join(5)
